@@ -250,16 +250,18 @@ def _is_denm_at(o, lat, lon, station):
 def run(ctx):
     thorough = ctx.tier == "thorough"
     intervals = [100, 150, 1000, 10000]
-    durations = [0, 1, 99, 100, 101, 250, 1000, 60000] if thorough else [0, 1, 99, 100, 101, 250, 1000, 5000]
+    durations = [0, 1, 99, 100, 101, 250, 1000, 60000] if thorough else [0, 1, 100, 101, 250, 1000]
     cfgs = []
     for i in intervals:
         for T in durations:
             if T / i > 700:
                 continue
-            for pos in range(len(POSITIONS) if thorough else 3):
+            for pos in range(len(POSITIONS) if thorough else 2):
                 cfgs.append((i, T, (0,), pos, True))
             for offs in ((0, i // 2), (0, i), (0, 0), (0, i // 2, i), (0, i, 2 * i)):
                 if T / i > 70 and len(offs) > 2:
+                    continue
+                if not thorough and (len(offs) > 2 and T / i > 3 or offs == (0, 0) and T / i > 5):
                     continue
                 cfgs.append((i, T, offs, 0, True))
                 cfgs.append((i, T, offs, 1, False))
